@@ -541,10 +541,15 @@ var c18URLShapes = []string{
 }
 
 func c18RandURL(r *gen.Rand) string {
-	if r.Chance(3, 4) {
-		return "type.googleapis.com/" + gen.Pick(r, []string{"a.B", "connectrpc.conformance.v1.Error", "x", "google.rpc.RetryInfo", "é.T"})
+	names := []string{"a.B", "connectrpc.conformance.v1.Error", "x", "google.rpc.RetryInfo", "é.T"}
+	switch r.Intn(8) {
+	case 0:
+		return gen.Pick(r, c18URLShapes)
+	case 1:
+		// any prefix: another host, a path, several slashes, a scheme, nothing but the slash (c13json.go)
+		return c13RandURLPrefix(r) + gen.Pick(r, names)
 	}
-	return gen.Pick(r, c18URLShapes)
+	return "type.googleapis.com/" + gen.Pick(r, names)
 }
 
 func c18RandErr(r *gen.Rand) c18PErr {
